@@ -22,9 +22,13 @@ func c06LateImport(res *vlib.Result, off int, fallback time.Duration, importTwic
 	res.Evals++
 	const srv = "<" + hsServerAddr + ">"
 	id := fmt.Sprintf("deadline=now%+ds fallback=%v import-twice=%v", off, fallback, importTwice)
-	// a minter elsewhere (the peer daemon) creates the claim; lifetime long enough to be live
+	// a minter elsewhere (the peer daemon) creates the claim; lifetime long enough to be live.
+	// (Its id must not collide with sessions other cases of this check leave in the package-global
+	// cache - a server with a cache of its own falls back to the global one: own sequence number,
+	// and the global cache is emptied first.)
+	security.ClearSessionCache()
 	M := security.NewSessionCache()
-	mc, err := security.MintClaimSession(M, security.MintClaimOptions{Sinful: srv, Birthdate: 1700000000, SequenceNum: 1, Lifetime: time.Hour, ValidCommands: []int{5}})
+	mc, err := security.MintClaimSession(M, security.MintClaimOptions{Sinful: srv, Birthdate: 1700000000, SequenceNum: 7700 + res.Evals, Lifetime: time.Hour, ValidCommands: []int{5}})
 	if err != nil {
 		res.Violate("C06/harness-establish", "mint: %v", err)
 		return
